@@ -131,7 +131,7 @@ def xlift(x):
         return X(z3.IntVal(3), z3.RealVal(0))
     from fractions import Fraction
     fr = Fraction(f)
-    if (fr.denominator > (1 << 24) or abs(fr.numerator) >= (1 << 60)) and not REALS['div']:
+    if (fr.denominator > (1 << 24) or (abs(fr.numerator) >= (1 << 60) and fr.denominator != 1)) and not REALS['div']:
         raise Unsupported('constant %r is not exactly representable in the exact domain' % (x,))
     return X(z3.IntVal(0), z3.RealVal(str(fr)))
 
@@ -1643,19 +1643,23 @@ def f_full_like(a, v, dtype=None, **kw):
 def f_nan_to_num(a, copy=True, nan=0.0, posinf=None, neginf=None):
     a = as_symarray(a)
     k = a.kind
-    if posinf is None or neginf is None:
-        if k == 'x4':
-            raise Unsupported('nan_to_num default inf replacement in exact domain')
-        fi = np.finfo(dtype_of_kind(k))
-        posinf = fi.max if posinf is None else posinf
-        neginf = fi.min if neginf is None else neginf
+    fi = np.finfo(np.float32 if k in ('x4', 'f4') else np.float64)
+    posinf = float(fi.max) if posinf is None else posinf
+    neginf = float(fi.min) if neginf is None else neginf
 
     def one(e):
+        if not isinstance(e, Sym):
+            with np.errstate(all='ignore'):
+                return cast(np.nan_to_num(e, nan=nan, posinf=posinf, neginf=neginf), k) if k != 'x4' else np.float32(np.nan_to_num(np.float32(e), nan=nan, posinf=posinf, neginf=neginf))
         r = ite(isnan(e), cast(nan, k), e)
         r = ite(sand(isinf(e), binop('gt', e, 0)), cast(posinf, k), r)
         r = ite(sand(isinf(e), binop('lt', e, 0)), cast(neginf, k), r)
         return r
-    return SymArray(_elt(one, a._a), k)
+    out = _elt(one, a._a)
+    if copy is False:
+        a._a[...] = out          # in place (the caller ignores the return value)
+        return a
+    return SymArray(out, k)
 
 
 def f_isin(a, test, **kw):
